@@ -16,9 +16,12 @@ def inP : P In := do
   let n ← nat; let w ← nat; let t ← rows; let FE ← rows; let N ← nats; let nEdge ← nat
   pure ⟨n, w, t, FE, N, nEdge⟩
 
-def outP : P Out := do
-  let nf ← rows; let ef ← pairs; let ff ← rows; let h ← nats
-  pure { nodeFace := nf, edgeFace := ef, faceFace := ff, holes := h }
+/-- the implementation's output; `holes` arrive as integers: a negative entry (e.g. `FILL`) is not
+    an edge number at all, so the `holes` clause fails by type (second component `false`) -/
+def outP : P (Out × Bool) := do
+  let nf ← rows; let ef ← pairs; let ff ← rows; let h ← ints
+  pure ({ nodeFace := nf, edgeFace := ef, faceFace := ff, holes := h.map Int.toNat },
+        h.all (fun x => decide (0 ≤ x)))
 
 def encOut (o : Out) : String :=
   s!"{encRows o.nodeFace} {encPairs o.edgeFace} {encRows o.faceFace} {encNats o.holes}"
@@ -32,8 +35,9 @@ def handle (cmd : String) (args : List Int) : Option String :=
       let i ← run inP args
       pure (encBool (decide (Pre i.n i.t i.FE i.N i.nEdge)))
   | "C03.spec" => do
-      let (i, o) ← run (do let i ← inP; let o ← outP; pure (i, o)) args
-      let fl := failing i.n i.t i.FE i.N i.nEdge o
+      let (i, (o, holesNat)) ← run (do let i ← inP; let o ← outP; pure (i, o)) args
+      let fl0 := failing i.n i.t i.FE i.N i.nEdge o
+      let fl := if holesNat || fl0.contains "holes" then fl0 else fl0 ++ ["holes"]
       pure (if fl.isEmpty then "ok" else "fail " ++ ",".intercalate fl)
   | _ => none
 
